@@ -12,7 +12,14 @@
  *        C = HWLOC_CPUID_PATH,
  *        A = "<subseed> <synthetic string>": the synthetic topology is loaded with INCLUDE_DISALLOWED, a random non-empty subset of
  *            its PUs and NUMA nodes is made the allowed sets (hwloc_topology_allow CUSTOM), it is exported to an XML buffer, and
- *            that buffer is the source of the case (so the stage sees real disallowed PUs / NUMA nodes)
+ *            that buffer is the source of the case (so the stage sees real disallowed PUs / NUMA nodes); the preparatory load uses the
+ *            default filters, so the buffer never holds memory-side caches, I/O or Misc objects (kept for old replays; the generator
+ *            now emits kind R instead)
+ *        R = "<subseed> <srckind> <srcarg>": a derived source with really disallowed PUs / NUMA nodes built from ANY source with EVERY
+ *            type kept (harness/derive.h), so that the stage sees disallowed resources below memory-side caches (memory objects nested
+ *            in memory objects), next to I/O and Misc objects, in v2 XML, ...
+ *   flags may contain IS_THISSYSTEM|THISSYSTEM_ALLOWED_RESOURCES (2|4) on S/X/B/A/R cases: the allowed sets of the running process are
+ *   then applied before the stage (they are part of the BEFORE dump, so the model sees them as its input)
  * dump file: "CASE <plan line>" written by the harness before each load, then the blocks written by the library, then
  *            "LOADED <caseid> <0|1>".
  */
@@ -21,6 +28,7 @@
 #include <stdlib.h>
 #include <string.h>
 #include "rng.h"
+#include "derive.h"
 #include <errno.h>
 #include <unistd.h>
 #include <stdarg.h>
@@ -97,6 +105,9 @@ static int run_case(const char *line, const char *caseid, char kind, unsigned lo
   case 'X': err = hwloc_topology_set_xml(t, arg); break;
   case 'B': { size_t len = 0; buf = read_file(arg, &len); if (!buf) err = -1; else err = hwloc_topology_set_xmlbuffer(t, buf, (int) len + 1); break; }
   case 'A': { int len = 0; buf = make_allowed_xml(arg, &len); if (!buf) err = -1; else err = hwloc_topology_set_xmlbuffer(t, buf, len + 1); break; }
+  case 'R': { int len = 0; unsetenv("HWLOC_VERIF_STAGE_DUMP");      /* the preparatory load is not a case */
+              buf = drv_make_xml(arg, &len); setenv("HWLOC_VERIF_STAGE_DUMP", dump_path, 1);
+              if (!buf) err = -1; else err = hwloc_topology_set_xmlbuffer(t, buf, len + 1); break; }
   case 'F': setenv("HWLOC_FSROOT", arg, 1); setenv("HWLOC_COMPONENTS", "linux,stop", 1); setenv("HWLOC_DUMPED_HWDATA_DIR", "/var/run/hwloc", 1); break;
   case 'G': setenv("HWLOC_FSROOT", arg, 1); setenv("HWLOC_COMPONENTS", "linux,pci,stop", 1); setenv("HWLOC_DUMPED_HWDATA_DIR", "/var/run/hwloc", 1); break;
   case 'C': setenv("HWLOC_CPUID_PATH", arg, 1); setenv("HWLOC_COMPONENTS", "x86,stop", 1); break;
@@ -115,26 +126,20 @@ failed0:
 }
 
 /* ---- generators (same families as h_topoload.c, plus kind A) ---- */
-struct src { char kind; char path[1000]; };
-static struct src *srcs; static unsigned nsrcs;
+/* struct src, srcs, nsrcs, pick_src: harness/derive.h */
 
-static void gen_filters(char *f) {
-  for (int i = 0; i < 20; i++) f[i] = '-';
-  f[20] = 0;
-  unsigned mode = rng_below(10);
-  if (mode < 4) return;
-  if (mode == 4) { for (int i = 0; i < 20; i++) f[i] = '0'; f[13] = '-'; return; }           /* keep all */
-  if (mode == 5) { for (int i = 0; i < 20; i++) f[i] = '2'; return; }                          /* keep structure */
-  if (mode == 6) { for (int i = 0; i < 20; i++) f[i] = '1'; return; }                          /* keep none (where legal) */
-  int n = 1 + rng_below(6);
-  for (int k = 0; k < n; k++) f[rng_below(20)] = '0' + rng_below(4);
-}
+static void gen_filters(char *f) { drv_gen_filters(f); }
 static unsigned long gen_flags(void) {
   static const unsigned long bits[] = {1, 8, 64, 128, 256, 512};
   unsigned long fl = 0;
-  if (rng_chance(50)) return rng_chance(50) ? 0 : 1;
-  for (int i = 0; i < 6; i++) if (rng_chance(35)) fl |= bits[i];
+  if (rng_chance(50)) return rng_chance(60) ? 0 : 1;
+  for (int i = 0; i < 6; i++) if (rng_chance(i ? 35 : 25)) fl |= bits[i];
   return fl;
+}
+/* IS_THISSYSTEM (2) alone, or with THISSYSTEM_ALLOWED_RESOURCES (4): only for sources that are not the Linux / x86 back ends */
+static unsigned long gen_thissystem_flags(void) {
+  if (!rng_chance(12)) return 0;
+  return rng_chance(80) ? 6 : 2;
 }
 
 static int app(char *s, int off, int cap, const char *fmt, ...) {
@@ -152,11 +157,11 @@ static void gen_synthetic(char *s, int cap) {
   }
   int numa_mode = rng_below(4); /* 0: none explicit, 1: level, 2: attached, 3: attached at two places */
   if (rng_chance(25)) off = app(s, off, cap, "group:%u ", CNT());
-  if (rng_chance(70)) { off = app(s, off, cap, "pack:%u ", CNT()); if ((numa_mode == 2 || numa_mode == 3) && rng_chance(50)) { off = app(s, off, cap, "[numa%s] ", rng_chance(40) ? "(memory=1GB)" : rng_chance(35) ? "(memorysidecachesize=64MB)" : rng_chance(10) ? "(indexes=1,0)" : ""); if (numa_mode == 2) numa_mode = 0; } }
+  if (rng_chance(70)) { off = app(s, off, cap, "pack:%u ", CNT()); if ((numa_mode == 2 || numa_mode == 3) && rng_chance(50)) { off = app(s, off, cap, "[numa%s] ", drv_gen_numa_attrs(0)); if (numa_mode == 2) numa_mode = 0; } }
   if (rng_chance(20)) off = app(s, off, cap, "die:%u ", CNT());
-  if (numa_mode == 1) off = app(s, off, cap, "numa:%u%s ", CNT(), rng_chance(30) ? "(memory=256MB)" : rng_chance(35) ? "(memory=1GB memorysidecachesize=128MB)" : rng_chance(8) ? "(indexes=1,1)" : "");
+  if (numa_mode == 1) { unsigned c_ = CNT(); off = app(s, off, cap, "numa:%u%s ", c_, drv_gen_numa_attrs(1)); }
   if (rng_chance(15)) off = app(s, off, cap, "group:%u ", CNT());
-  if (rng_chance(40)) { off = app(s, off, cap, "l3:%u%s ", CNT(), rng_chance(30) ? "(size=8MB)" : ""); if (numa_mode >= 2) { off = app(s, off, cap, "[numa] "); numa_mode = 0; } }
+  if (rng_chance(40)) { off = app(s, off, cap, "l3:%u%s ", CNT(), rng_chance(30) ? "(size=8MB)" : ""); if (numa_mode >= 2) { off = app(s, off, cap, "[numa%s] ", rng_chance(50) ? drv_gen_numa_attrs(0) : ""); numa_mode = 0; } }
   if (rng_chance(40)) off = app(s, off, cap, "l2:%u ", CNT());
   if (rng_chance(30)) off = app(s, off, cap, "l1:%u ", 1u);
   if (rng_chance(80)) off = app(s, off, cap, "core:%u ", CNT());
@@ -221,22 +226,27 @@ int main(int argc, char **argv) {
     unsigned long flags = gen_flags();
     gen_filters(filters);
     unsigned w = rng_below(100);
-    if (nsrcs && w < 40) {
-      struct src *s = &srcs[rng_below(nsrcs)];
+    if (nsrcs && w < 38) {
+      struct src *s = pick_src();
       kind = s->kind;
       if (kind == 'X' && rng_chance(50)) kind = 'B';
       if (kind == 'F' && rng_chance(30)) kind = 'G';
       strcpy(arg, s->path);
-    } else if (w < 65) {
-      char syn[1200]; gen_synthetic(syn, sizeof syn);
-      kind = 'A'; snprintf(arg, sizeof arg, "%u %s", rng_below(1000000), syn);
+    } else if (w < 68) {
+      /* derived source with disallowed resources: from a synthetic string (60 %) or from a bundled XML file / snapshot */
+      kind = 'R';
+      if (!nsrcs || rng_chance(60)) { char syn[1200]; gen_synthetic(syn, sizeof syn); snprintf(arg, sizeof arg, "%u S %s", rng_below(1000000), syn); }
+      else { struct src *s = pick_src(); char k = s->kind; if (k == 'F' && rng_chance(30)) k = 'G'; snprintf(arg, sizeof arg, "%u %c %s", rng_below(1000000), k, s->path); }
     } else { kind = 'S'; gen_synthetic(arg, sizeof arg); }
+    if (kind == 'S' || kind == 'X' || kind == 'B' || kind == 'R') flags |= gen_thissystem_flags();
     snprintf(id, sizeof id, "c%lu", i);
     snprintf(line, sizeof line, "%s %c %lu %s %s", id, kind, flags, filters, arg);
     fprintf(fplan, "%s\n", line); fflush(fplan);
     if (run_case(line, id, kind, flags, filters, arg)) failed++; else loaded++;
   }
   fprintf(fplan, "# loaded %lu failed %lu\n", loaded, failed);
+  fprintf(fplan, "# derived made %lu with_memcache %lu two_level_memcache %lu dropped_pu %lu dropped_node %lu allow_refused %lu v2 %lu retyped_to_group %lu retyped_cpuless %lu\n",
+          drv_made, drv_with_memcache, drv_two_level_memcache, drv_dropped_pu, drv_dropped_node, drv_allow_refused, drv_v2, drv_retyped, drv_retyped_cpuless);
   fclose(fplan);
   return 0;
 }
